@@ -367,6 +367,37 @@ def rw_for_range(text: str) -> str:
     k += 1
 
 
+def rw_next_if_pred(text: str, fns: List[str], vars: List[str] = ()) -> str:
+  """R4n: `self.next_if(|c| PRED)` -> `self.verif_next_if(Ghost(|c: char| PRED'))` where PRED' is PRED with `*c` -> `c` and each call of a listed
+  pure character-class function `f(` -> `f_spec(`; anything else in PRED (another call, a block, a captured mutable) is refused."""
+  while True:
+    m = re.search(r'self\s*\.\s*next_if\s*\(\s*\|\s*c\s*\|', text)
+    if not m: return text
+    toks = rsitems.lex(text)
+    ko = None
+    for idx, t in enumerate(toks):
+      if t.start >= m.start() and t.kind == 'p' and t.text == '(': ko = idx; break
+    kc = rsitems.match_close(toks, ko)
+    body = [t for t in toks[ko + 1:kc] if t.start >= m.end()]
+    sig = [t for t in body if t.kind not in ('ws', 'comment')]
+    out = []
+    for n, t in enumerate(body):
+      if t.kind in ('ws', 'comment'): out.append(' '); continue
+      k = sig.index(t)
+      nxt = sig[k + 1] if k + 1 < len(sig) else None
+      prv = sig[k - 1] if k > 0 else None
+      if t.kind == 'p' and t.text == '*' and nxt is not None and nxt.kind == 'id' and nxt.text == 'c' and (prv is None or prv.kind == 'p'):
+        continue   # deref of the closure parameter
+      if t.kind == 'id' and nxt is not None and nxt.text == '(':
+        if t.text not in fns: raise Undecided('R4n: call of %s in a next_if predicate' % t.text)
+        out.append(t.text + '_spec'); continue
+      if t.kind == 'id' and t.text != 'c' and t.text not in vars: raise Undecided('R4n: predicate mentions %s' % t.text)
+      if t.kind == 'p' and t.text in '{};.': raise Undecided('R4n: predicate is not a plain expression')
+      out.append(t.text)
+    pred = re.sub(r'\s+', ' ', ''.join(out)).strip()
+    text = text[:m.start()] + 'self.verif_next_if(Ghost(|c: char| %s))' % pred + text[toks[kc].end:]
+
+
 def rw_mut_self(text: str) -> str:
   """R1: `fn f(mut self, ...) { B }` -> `fn f(self, ...) { let mut this = self; B[self:=this] }`"""
   a = fn_anatomy(text)
@@ -908,6 +939,7 @@ def build_unit(name: str, variant: Optional[str] = None, canary: bool = False) -
         elif rule == 'R15': new = rw_trace_log(new)
         elif rule == 'R13r': new = rw_for_range(new)
         elif rule == 'R17': new = rw_inline_scope(new)
+        elif rule == 'R4n': new = rw_next_if_pred(new, args.get('fns', []), args.get('vars', []))
         elif rule == 'R16': new = rw_thread_heap(new, args['methods'])
         elif rule == 'R13m': new = rw_range_map_collect(new)
         elif rule == 'R3d': new = rw_drop_cfg_debug(new)
